@@ -449,7 +449,7 @@ def b_sysofeq(V, cfg):
     import pymoto as pym
     n = cfg["n"]
     free = np.array(cfg["free"], dtype=int)
-    pres = np.array([i for i in range(n) if i not in cfg["free"]], dtype=int)
+    pres = np.array(cfg["pres"] if cfg.get("pres") else [i for i in range(n) if i not in cfg["free"]], dtype=int)
     nrhs = cfg.get("nrhs", 0)
     A = _matrix(V, cfg, "A", n)
     shpf = (len(free),) if nrhs == 0 else (len(free), nrhs)
@@ -483,7 +483,8 @@ def b_statcond(V, cfg):
     n = cfg["n"]
     main = np.array(cfg["main"], dtype=int)
     free = np.array(cfg["free"], dtype=int)
-    A = _matrix(V, dict(cfg, mclass="symmetric"), "A", n)
+    general = cfg.get("mclass") == "general"      # response only: the documented adjoint is for symmetric A
+    A = _matrix(V, dict(cfg, mclass="general" if general else "symmetric"), "A", n)
     X = V.reals("X", (len(free), len(main)))
     Aff = A[np.ix_(free, free)]
     assume_nonsingular(V, Aff, "A_ff")
@@ -492,7 +493,8 @@ def b_statcond(V, cfg):
     for a, fi in enumerate(free):
         for b, mj in enumerate(main):
             A[fi, mj] = Afm[a, b]
-            A[mj, fi] = Afm[a, b]
+            if not general:
+                A[mj, fi] = Afm[a, b]
     A = wrap(A) if V.symbolic else A
     Aval = _mk_sparse(V, A) if cfg.get("sparse", True) else A
     sA = pym.Signal("A", Aval)
